@@ -66,6 +66,14 @@ def monitor_strategy(ctx, name, hf, key, shipped):
         if name == "default_fnv_1a" and isinstance(key, (bytes, bytearray)):
             ctx.check(dv == refimpl.fnv_chain(bytes(key), deep), f"default_fnv_1a(key, {deep}) differs from reference FNV-1a with the basis advanced by 31 per index", key=key,
                       first_bad=[i for i, (a, b) in enumerate(zip(dv, refimpl.fnv_chain(bytes(key), deep))) if a != b][:3])
+    # very deep requests (once per strategy and process: thousands of values, beyond any recursion or buffer limit an implementation might have)
+    seen = ctx.state.setdefault("very_deep_done", set())
+    if name not in seen:
+        seen.add(name)
+        for deep in (1000, 2500, 5000):
+            dv = hf(key, deep)
+            ctx.check(len(dv) == deep and dv[:8] == full and dv[:100] == hf(key, 100), f"{name}(key, {deep}) has the wrong length or is not an extension of the shallow answers", key=key, got_len=len(dv))
+        ctx.count("very_deep_requests", 3)
     ctx.count(f"strategy_monitored.{name}")
 
 
